@@ -28,6 +28,7 @@ will trigger as readable in `select <select.select>`.
 import sys
 import os
 import socket
+import threading
 
 
 def make_pipe():
@@ -44,31 +45,38 @@ class PosixPipe:
         self._set = False
         self._forever = False
         self._closed = False
+        # set/clear/set_forever/close are called from different threads (the
+        # transport thread feeding data, application threads reading it)
+        self._lock = threading.RLock()
 
     def close(self):
-        os.close(self._rfd)
-        os.close(self._wfd)
-        # used for unit tests:
-        self._closed = True
+        with self._lock:
+            os.close(self._rfd)
+            os.close(self._wfd)
+            # used for unit tests:
+            self._closed = True
 
     def fileno(self):
         return self._rfd
 
     def clear(self):
-        if not self._set or self._forever:
-            return
-        os.read(self._rfd, 1)
-        self._set = False
+        with self._lock:
+            if not self._set or self._forever or self._closed:
+                return
+            os.read(self._rfd, 1)
+            self._set = False
 
     def set(self):
-        if self._set or self._closed:
-            return
-        self._set = True
-        os.write(self._wfd, b"*")
+        with self._lock:
+            if self._set or self._closed:
+                return
+            self._set = True
+            os.write(self._wfd, b"*")
 
     def set_forever(self):
-        self._forever = True
-        self.set()
+        with self._lock:
+            self._forever = True
+            self.set()
 
 
 class WindowsPipe:
@@ -91,48 +99,58 @@ class WindowsPipe:
         self._set = False
         self._forever = False
         self._closed = False
+        self._lock = threading.RLock()
 
     def close(self):
-        self._rsock.close()
-        self._wsock.close()
-        # used for unit tests:
-        self._closed = True
+        with self._lock:
+            self._rsock.close()
+            self._wsock.close()
+            # used for unit tests:
+            self._closed = True
 
     def fileno(self):
         return self._rsock.fileno()
 
     def clear(self):
-        if not self._set or self._forever:
-            return
-        self._rsock.recv(1)
-        self._set = False
+        with self._lock:
+            if not self._set or self._forever or self._closed:
+                return
+            self._rsock.recv(1)
+            self._set = False
 
     def set(self):
-        if self._set or self._closed:
-            return
-        self._set = True
-        self._wsock.send(b"*")
+        with self._lock:
+            if self._set or self._closed:
+                return
+            self._set = True
+            self._wsock.send(b"*")
 
     def set_forever(self):
-        self._forever = True
-        self.set()
+        with self._lock:
+            self._forever = True
+            self.set()
 
 
 class OrPipe:
-    def __init__(self, pipe):
+    def __init__(self, pipe, lock=None):
         self._set = False
         self._partner = None
         self._pipe = pipe
+        # shared with the partner: looking at the partner's state and acting
+        # on the real pipe must be one atomic step
+        self._lock = lock if lock is not None else threading.Lock()
 
     def set(self):
-        self._set = True
-        if not self._partner._set:
-            self._pipe.set()
+        with self._lock:
+            self._set = True
+            if not self._partner._set:
+                self._pipe.set()
 
     def clear(self):
-        self._set = False
-        if not self._partner._set:
-            self._pipe.clear()
+        with self._lock:
+            self._set = False
+            if not self._partner._set:
+                self._pipe.clear()
 
 
 def make_or_pipe(pipe):
@@ -141,8 +159,9 @@ def make_or_pipe(pipe):
     affect the real pipe. if either returned pipe is set, the wrapped pipe
     is set. when both are cleared, the wrapped pipe is cleared.
     """
-    p1 = OrPipe(pipe)
-    p2 = OrPipe(pipe)
+    lock = threading.Lock()
+    p1 = OrPipe(pipe, lock)
+    p2 = OrPipe(pipe, lock)
     p1._partner = p2
     p2._partner = p1
     return p1, p2
